@@ -56,6 +56,7 @@ func witnesses() []wit {
 		semW("F-C03-lt0pre", "agree", "npm", Range{[]Alt{comps(cm("<", n3p(0, 0, 0, id("b"))))}}, sv(0, 0, 0, []Ident{id("a")})),
 		semW("F-C03-pre000", "agree", "npm", Range{[]Alt{comps(cm("<=", np(0, -1)), cm("~", n3p(0, 0, 0, in(0))))}}, sv(0, 0, 0, zeroPre)),
 		semW("F-C03-gt-succ-pre", "agree", "npm", Range{[]Alt{comps(cm(">", n3(1, 1, 0)), cm("<=", n3p(1, 1, 1, id("rc"), in(2))))}}, sv(1, 1, 1, zeroPre)),
+		semW("F-C03-signed-ident", "agree", "npm", Range{[]Alt{comps(cm(">=", n3p(1, 0, 0, in(0))))}}, sv(1, 0, 0, []Ident{id("-5")})),
 		semW("F-C03-hyphen-wild", "not-rejected", "npm", Range{[]Alt{{Hyphen: true, Lo: n3p(3, 0, 2, in(0)), Hi: star()}}}, sv(3, 0, 2, nil)),
 		semW("F-C03-hyphen-inverted", "not-rejected", "npm", Range{[]Alt{{Hyphen: true, Lo: n3(2, 2, 2), Hi: np(2, 0)}, comps(cm("<=", np(0, 3)))}}, sv(0, 3, 0, nil)),
 		semW("F-C03-lt-midwild", "agree", "npm", Range{[]Alt{comps(cm("<", np(1, -1, 2)))}}, sv(1, 0, 0, nil)),
